@@ -11,3 +11,26 @@ package digest
 //@   inline
 //@ func (Set).Empty
 //@   inline
+
+// Accessors of Digest as seen by the CAS validators (C09): the size and hash
+// are functions of the digest value. Their parsing is not verified here
+// (trusted; the codecs belong to C20).
+//@ ufunc dgSize(str) int
+//@ ghost dgHash(ref) int
+//@ func (Digest).GetSizeBytes
+//@   trusted
+//@   modifies nothing
+//@   ensures result == dgSize(d.value) && result >= 0
+//@ func (Digest).GetHashBytes
+//@   trusted
+//@   modifies nothing
+//@   ensures fresh(base(result)) && dgHash(base(result)) == 1
+//@ func (Digest).NewHasher
+//@   trusted
+//@   modifies nothing
+//@   ensures result != nil && fresh(result) && hCount(result) == 0
+//@ ufunc dgInst(str) str
+//@ func (Digest).GetInstanceName
+//@   trusted
+//@   modifies nothing
+//@   ensures result.value == dgInst(d.value)
